@@ -148,6 +148,8 @@ def _lead_start(lines, k):
 def extract_entity(repo, ent):
     if ent.get('kind') == 'funcs':
         return extract_many(repo, ent)
+    if ent.get('kind') == 'loopfn':
+        return extract_loopfn(repo, ent)
     path = os.path.join(repo, ent['file'])
     try:
         raw = open(path, encoding='utf-8', errors='replace').read()
@@ -252,7 +254,8 @@ def render(template_path, ex, out_path):
             raise ExtractError('template refers to unknown entity %s' % eid)
         used.add(eid)
         e = ex[eid]
-        out.append('#line %d "%s"' % (e['first_line'], e['src_path']))
+        if not e.get('no_line_directive'):
+            out.append('#line %d "%s"' % (e['first_line'], e['src_path']))
         out.append(e['text'].rstrip('\n'))
         out.append('#line %d "%s"' % (i + 2, os.path.basename(template_path)))
     missing = set(ex) - used
@@ -266,3 +269,247 @@ if __name__ == '__main__':
     import sys
     ent = json.loads(sys.argv[2])
     print(extract_entity(sys.argv[1], ent)['text'])
+
+
+# ---------------------------------------------------------------------------------------------
+# Loop-rule generator (kind "loopfn").
+#
+# CBMC's external loop-contract file cannot name the locals of a C++ function with more than one
+# parameter (the symbol map is comma-separated and so are C++ function identifiers), so the
+# classic loop rule is generated here instead.  The function text is cut, mechanically, into
+#     HEADER { PRE  for (INIT; COND; INCR) BODY  POST }
+# (or do BODY while (COND); / while (COND) BODY) and re-assembled, every piece verbatim, as
+#
+#     HEADER__lc {
+#       PRE
+#       { INIT;
+#         if (gh_lc_phase == 0) { assert(LC_INV) [base case]; assume(false); }
+#         LC_HAVOC; assume(LC_INV);                       // an arbitrary iteration
+#         if (COND) { snapshot LC_DECR; BODY' lc_continue: INCR;
+#                     assert(LC_INV) [step]; assert(LC_DECR decreased); assume(false); }
+#         lc_break: ; }
+#       POST                                              // runs from  LC_INV && !COND  (or a break)
+#     }
+#
+# BODY' is BODY with 'continue;' / 'break;' that belong to this loop turned into gotos.
+# LC_INV, LC_HAVOC, LC_DECR and LC_FRAME_* are macros supplied by the unit (sidecar contract).
+# The frame is checked too: every local named in LC_FRAME must be unchanged by one iteration.
+
+def _skip_ws_comments(t, i):
+    n = len(t)
+    while i < n:
+        if t[i].isspace():
+            i += 1
+        elif t.startswith('//', i):
+            j = t.find('\n', i)
+            i = n if j < 0 else j + 1
+        elif t.startswith('/*', i):
+            i = t.index('*/', i) + 2
+        else:
+            break
+    return i
+
+
+def _match_paren(t, i):
+    assert t[i] == '('
+    d = 0
+    n = len(t)
+    while i < n:
+        c = t[i]
+        if c == '"' or c == "'":
+            q = c
+            i += 1
+            while t[i] != q:
+                if t[i] == '\\':
+                    i += 1
+                i += 1
+        elif t.startswith('//', i):
+            i = t.index('\n', i)
+        elif t.startswith('/*', i):
+            i = t.index('*/', i) + 1
+        elif c == '(':
+            d += 1
+        elif c == ')':
+            d -= 1
+            if d == 0:
+                return i
+        i += 1
+    raise ExtractError('unbalanced parentheses')
+
+
+def _split_top(t, sep=';'):
+    parts, d, cur = [], 0, ''
+    for c in t:
+        if c in '([{':
+            d += 1
+        elif c in ')]}':
+            d -= 1
+        if c == sep and d == 0:
+            parts.append(cur)
+            cur = ''
+        else:
+            cur += c
+    parts.append(cur)
+    return parts
+
+
+def _statement_end(t, i):
+    """index just past the statement starting at t[i] (block or simple statement)."""
+    i = _skip_ws_comments(t, i)
+    if t[i] == '{':
+        return _scan_to_matching_brace(t, i) + 1
+    d = 0
+    while True:
+        c = t[i]
+        if c in '([{':
+            d += 1
+        elif c in ')]}':
+            d -= 1
+        elif c == ';' and d == 0:
+            return i + 1
+        i += 1
+
+
+def _rewrite_jumps(body):
+    """continue;/break; of *this* loop -> gotos; nested loops and switches are left alone."""
+    out, i, n = '', 0, len(body)
+    kw = re.compile(r'\b(for|while|switch|do|continue|break)\b')
+    while i < n:
+        m = kw.search(body, i)
+        if not m:
+            out += body[i:]
+            break
+        # skip keywords inside comments/strings: cheap check on the line prefix
+        line_start = body.rfind('\n', 0, m.start()) + 1
+        if '//' in body[line_start:m.start()]:
+            out += body[i:m.end()]
+            i = m.end()
+            continue
+        k = m.group(1)
+        if k in ('continue', 'break'):
+            j = _skip_ws_comments(body, m.end())
+            if body[j] != ';':
+                raise ExtractError('unexpected token after %s' % k)
+            out += body[i:m.start()] + 'goto lc_%s;' % k
+            i = j + 1
+        elif k == 'do':
+            e = _statement_end(body, m.end())
+            j = _skip_ws_comments(body, e)
+            if not body.startswith('while', j):
+                raise ExtractError('do without while')
+            p = body.index('(', j)
+            q = _match_paren(body, p)
+            e2 = body.index(';', q) + 1
+            out += body[i:e2]
+            i = e2
+        else:
+            p = _skip_ws_comments(body, m.end())
+            if body[p] != '(':
+                out += body[i:m.end()]
+                i = m.end()
+                continue
+            q = _match_paren(body, p)
+            e = _statement_end(body, q + 1)
+            out += body[i:e]
+            i = e
+    return out
+
+
+def extract_loopfn(repo, ent):
+    f = extract_entity(repo, dict(ent, kind='func'))
+    text = f['text']
+    ob = _find_open_brace(text, text.index(re.search(ent['start'], text, flags=re.M).group(0)))
+    header = text[:ob]
+    inner = text[ob + 1:text.rindex('}')]
+    hits = [m for m in re.finditer(ent['loop_start'], inner, flags=re.M)]
+    if len(hits) != 1:
+        raise ExtractError('%s: loop_start /%s/ matches %d times in %s'
+                           % (ent['file'], ent['loop_start'], len(hits), ent['id']))
+    ls = hits[0].start()
+    mkw = re.compile(r'\b(for|while|do)\b').search(inner, ls)
+    if not mkw:
+        raise ExtractError('no loop keyword at loop_start')
+    k = mkw.group(1)
+    ls = mkw.start()
+    init = incr = ''
+    if k in ('for', 'while'):
+        p = _skip_ws_comments(inner, mkw.end())
+        q = _match_paren(inner, p)
+        hdr = inner[p + 1:q]
+        if k == 'for':
+            parts = _split_top(hdr)
+            if len(parts) != 3:
+                raise ExtractError('for header does not have three parts')
+            init, cond, incr = parts
+        else:
+            cond = hdr
+        be = _statement_end(inner, q + 1)
+        body = inner[q + 1:be]
+        le = be
+    else:
+        be = _statement_end(inner, mkw.end())
+        body = inner[mkw.end():be]
+        j = _skip_ws_comments(inner, be)
+        if not inner.startswith('while', j):
+            raise ExtractError('do without while')
+        p = inner.index('(', j)
+        q = _match_paren(inner, p)
+        cond = inner[p + 1:q]
+        le = inner.index(';', q) + 1
+    pre, post = inner[:ls], inner[le:]
+    body2 = _rewrite_jumps(body)
+    name = ent['name']
+    if len(re.findall(r'\b%s\b' % re.escape(name), header)) != 1:
+        raise ExtractError('function name %s not found exactly once in its header' % name)
+    header2 = re.sub(r'\b%s\b' % re.escape(name), name + '__lc', header)
+    P = ent.get('macro_prefix', 'LC')
+    line0 = f['first_line']
+    src = os.path.join(repo, ent['file'])
+
+    def ln(off_text):
+        return '#line %d "%s"\n' % (line0 + text[:text.index(off_text)].count('\n') if off_text in text else line0, src)
+    g = []
+    g.append(ln(header) + header2 + '{\n')
+    g.append(ln(pre) if pre.strip() else '')
+    g.append(pre + '\n')
+    g.append('  { // loop scope (generated)\n')
+    if k == 'do':
+        g.append('    if (gh_lc_phase == 0) { __CPROVER_assert(%s_INV, "loop invariant holds on entry (base case)"); __CPROVER_assume(0); }\n' % P)
+        g.append('    %s_HAVOC; __CPROVER_assume(%s_INV);\n' % (P, P))
+        g.append('    { %s_FRAME_SNAPSHOT; unsigned long lc_decr_before = (%s_DECR);\n' % (P, P))
+        g.append(ln(body) + body2 + '\n')
+        g.append('    lc_continue: ;\n')
+        g.append(ln(cond) + '    if (' + cond + ')\n')
+        g.append('      { __CPROVER_assert(%s_INV, "loop invariant is preserved (inductive step)");\n' % P)
+        g.append('        __CPROVER_assert((%s_DECR) < lc_decr_before, "loop variant decreases");\n' % P)
+        g.append('        __CPROVER_assert(%s_FRAME_UNCHANGED, "loop frame: nothing outside the loop assigns clause changed");\n' % P)
+        g.append('        __CPROVER_assume(0); }\n')
+        g.append('    }\n')
+    else:
+        if init.strip():
+            g.append(ln(init) + '    ' + init.strip() + ';\n')
+        g.append('    if (gh_lc_phase == 0) { __CPROVER_assert(%s_INV, "loop invariant holds on entry (base case)"); __CPROVER_assume(0); }\n' % P)
+        g.append('    %s_HAVOC; __CPROVER_assume(%s_INV);\n' % (P, P))
+        g.append(ln(cond) + '    if (' + cond.strip() + ')\n')
+        g.append('      { %s_FRAME_SNAPSHOT; unsigned long lc_decr_before = (%s_DECR);\n' % (P, P))
+        g.append(ln(body) + body2 + '\n')
+        g.append('      lc_continue: ;\n')
+        if incr.strip():
+            g.append(ln(incr) + '      ' + incr.strip() + ';\n')
+        g.append('        __CPROVER_assert(%s_INV, "loop invariant is preserved (inductive step)");\n' % P)
+        g.append('        __CPROVER_assert((%s_DECR) < lc_decr_before, "loop variant decreases");\n' % P)
+        g.append('        __CPROVER_assert(%s_FRAME_UNCHANGED, "loop frame: nothing outside the loop assigns clause changed");\n' % P)
+        g.append('        __CPROVER_assume(0);\n      }\n')
+    g.append('    lc_break: ;\n  }\n')
+    g.append(ln(post) if post.strip() else '')
+    g.append(post + '\n}\n')
+    gen = ''.join(g)
+    pieces = {'header': header, 'pre': pre, 'init': init, 'cond': cond, 'incr': incr, 'body': body, 'post': post}
+    if ''.join([header, '{', pre]) not in text:
+        raise ExtractError('internal: split does not reassemble')
+    return {
+        'id': ent['id'], 'file': ent['file'], 'kind': 'loopfn',
+        'first_line': f['first_line'], 'last_line': f['last_line'],
+        'sha256': f['sha256'], 'text': gen, 'no_line_directive': True,
+        'loop_kind': k, 'pieces_sha256': {p: hashlib.sha256(v.encode()).hexdigest()[:16] for p, v in pieces.items()},
+    }
